@@ -1935,6 +1935,9 @@ struct Gen {
         return q;
     }
     // schedule of feeds (and interleaved queries) for an utterance of N samples
+    Json last_sig = Json::object();
+    std::string last_lng;
+    std::vector<std::string> last_prefer;
     void schedule(int d, int64_t N, bool canonical, bool full, double qrate, bool allow_align, bool allow_ns)
     {
         if (full || canonical) {
@@ -1949,7 +1952,7 @@ struct Gen {
             push(f, d);
             // a partial-result request between the (single) feed call and end_utt: no frame is searched in between
             if (r.chance(full ? 0.5 : qrate))
-                push(query(allow_align && !full), d);
+                push(query(allow_align && (!full || align_heavy)), d);
             return;
         }
         int style = (int)r.below(7);
@@ -2017,6 +2020,15 @@ struct Gen {
         std::string lng = lang_of(tmpl);
         std::vector<std::string> prefer;
         Json sig = clip(lng, maxn, true, &prefer);
+        // the same audio again under another grammar or text (a corrected transcript): same frame count, other result
+        if (align_heavy && !last_sig.o.empty() && last_lng == lng && r.chance(0.35)) {
+            sig = last_sig;
+            prefer = last_prefer;
+            new_grammar = true;
+        }
+        last_sig = sig;
+        last_lng = lng;
+        last_prefer = prefer;
         if (tiny_ok && r.chance(0.25))
             sig.set("n", (long long)r.pick(std::vector<int> { 0, 1, 100, 409, 410, 411, 569, 570, 571, 730, 1000, 1210 }));
         if (new_grammar) {
